@@ -255,3 +255,75 @@ func DelegEvents(t int, sc *Scenario, tr *Transcript) []DelegEvent {
 	}
 	return evs
 }
+
+// ---------------------------------------------------------------------------------
+// Validators_Trace events (C10)
+
+type ValEvent struct {
+	T      int              `json:"t"`
+	Ev     string           `json:"ev"`
+	H      int64            `json:"h"`
+	Rec    map[string]int64 `json:"rec"`   // validator -> power in the previous block's records
+	Stake  map[string]int64 `json:"stake"` // validator -> own stake in the previous block's records
+	Bad    []string         `json:"bad"`   // frozen in the previous block's records, or frozen at this block's beginning
+	Top    int64            `json:"top"`
+	Min    int64            `json:"min"`
+	Upd    map[string]int64 `json:"upd"`
+	Dup    bool             `json:"dup"` // the update list named a validator twice
+	UpdErr string           `json:"updErr"`
+	Cur    map[string]int64 `json:"cur"`
+	Nxt    map[string]int64 `json:"nxt"`
+}
+
+func ValEvents(t int, sc *Scenario, tr *Transcript) []ValEvent {
+	if tr.InitState == nil {
+		return nil
+	}
+	var evs []ValEvent
+	prev := tr.InitState
+	for _, b := range tr.Blocks {
+		if b.State == nil {
+			break
+		}
+		e := ValEvent{T: t, Ev: "Block", H: b.H, Rec: map[string]int64{}, Stake: map[string]int64{}, Upd: map[string]int64{}, UpdErr: b.UpdErr,
+			Cur: b.Set, Nxt: b.Next, Top: optInt(prev, "stakingopt", "topValidatorCount"), Min: optInt(prev, "stakingopt", "minSelfDelegationAmount")}
+		for v, r := range prev.Vals {
+			e.Rec[v] = r.Power
+			e.Stake[v] = Get2(prev.StakeEff, v, r.Stake)
+		}
+		bad := map[string]bool{}
+		for v, f := range prev.Frozen {
+			if f.IsFrozen {
+				bad[v] = true
+			}
+		}
+		for v, f := range b.State.Frozen {
+			if f.IsFrozen && f.Height == b.H && f.Status == 1 { // MISSED_REQUIRED_VOTES, decided at this block's beginning
+				bad[v] = true
+			}
+		}
+		e.Bad = sortedKeys(bad)
+		for _, u := range b.Updates {
+			if _, ok := e.Upd[u.V]; ok {
+				e.Dup = true
+			}
+			e.Upd[u.V] = u.Power
+		}
+		if e.Cur == nil {
+			e.Cur = map[string]int64{}
+		}
+		if e.Nxt == nil {
+			e.Nxt = map[string]int64{}
+		}
+		evs = append(evs, e)
+		prev = b.State
+	}
+	return evs
+}
+
+func Get2(m map[string]map[string]int64, a, b string) int64 {
+	if x, ok := m[a]; ok {
+		return x[b]
+	}
+	return 0
+}
